@@ -36,11 +36,11 @@ func (m vfMask) Faults() int {
 }
 
 type vfMaskState struct {
-	mu      sync.Mutex
-	held    map[string][]*vfWire
-	applied int
-	dropped int
-	delayed int // datagrams that reached the peer later than the instant they were sent (hold, or a swap without successor)
+	mu       sync.Mutex
+	held     map[string][]*vfWire
+	applied  int
+	dropped  int
+	delayed  int // datagrams that reached the peer later than the instant they were sent (hold, or a swap without successor)
 	nonPlain int // faults that touched anything but a datagram made of epoch-0 handshake records only
 }
 
